@@ -62,7 +62,8 @@ def panicDocumented (op : String) (args : Array String) : Bool :=
   let isInf := a0.length == 32 && !isNaN && (a0.startsWith "78" || a0.startsWith "79" || a0.startsWith "7a" || a0.startsWith "7b" ||
                                              a0.startsWith "f8" || a0.startsWith "f9" || a0.startsWith "fa" || a0.startsWith "fb")
   match op with
-  | "Decimal.Sign" | "Decimal.Int64_" | "Decimal.Int32_" | "Decimal.Uint64" | "Decimal.Uint32" | "api.Float" => isNaN
+  | "Decimal.Sign" | "Decimal.Int64_" | "Decimal.Int32_" | "Decimal.Uint64" | "Decimal.Uint32" | "api.Float"
+  | "Decimal.Float" => isNaN
   | "Decimal.Payload_" | "api.Payload" => !isNaN
   | "api.Int" | "api.Rat" | "api.RatRoundTrip" | "Decimal.Int_" | "Decimal.Rat" => isNaN || isInf
   | "api.MustParse" | "MustParse" => true
